@@ -110,6 +110,119 @@ Proof.
   rewrite <- (firstn_skipn k l) at 1. f_equal. apply skipn_nth_cons. exact H.
 Qed.
 
+(** * Pending from a linear history of the files from the last checkpoint on
+
+    The directory is [pre ++ all]; the revisions are those of the first [m]
+    files of [all] (all complete, or the last one partial); the files of [all]
+    after its first are no checkpoints. Then whatever [pre] holds, Pending names
+    exactly the files of [all] that are not complete. (Generalises
+    [pending_linear_state] to directories with checkpoint files.) *)
+Lemma from_last_ckpt_split l : exists pre, l = pre ++ from_last_ckpt l.
+Proof.
+  induction l as [|f l [pre IH]]; [exists []; reflexivity|].
+  simpl. destruct (existsb f_ckpt l).
+  - exists (f :: pre). simpl. rewrite <- IH. reflexivity.
+  - exists []. reflexivity.
+Qed.
+
+Lemma from_last_ckpt_tail l f : In f (tl (from_last_ckpt l)) -> f_ckpt f = false.
+Proof.
+  induction l as [|x l IH]; simpl; [intros []|].
+  destruct (existsb f_ckpt l) eqn:E; [exact IH|]. simpl. intros Hin.
+  destruct (f_ckpt f) eqn:Ef; [|reflexivity].
+  assert (existsb f_ckpt l = true) by (apply existsb_exists; eauto). congruence.
+Qed.
+
+Lemma from_last_ckpt_none l : (forall f, In f l -> f_ckpt f = false) -> from_last_ckpt l = l.
+Proof.
+  destruct l as [|x l]; [reflexivity|]. intros H. simpl.
+  assert (existsb f_ckpt l = false) as ->; [|reflexivity].
+  destruct (existsb f_ckpt l) eqn:E; [|reflexivity].
+  apply existsb_exists in E as (y & Hy & Ey). rewrite (H y (or_intror Hy)) in Ey. discriminate.
+Qed.
+
+Section PendingFrom.
+Variable hash : Type.
+Notation rev := (rev hash).
+
+Lemma pending_from_state c pre all (revs : list rev) k p :
+  sorted_files (pre ++ all) -> (forall f, In f (tl all) -> f_ckpt f = false) ->
+  linear_state hash all revs k p ->
+  pending c (pre ++ all) revs = (finish (skipn k all), None).
+Proof.
+  intros Hsf Htail (Hm & Hpos & Hmap & Hcomp & Hpart).
+  set (m := k + (if p then 1 else 0)) in *.
+  assert (sorted_files all) as Hsa by (apply StronglySorted_app_inv in Hsf as (_ & H & _); exact H).
+  assert (forall x y, In x pre -> In y all -> bytes_ltb (f_version x) (f_version y) = true) as Hpre_lt
+    by (apply StronglySorted_app_inv in Hsf as (_ & _ & H); exact H).
+  assert (length revs = m) as Hlen.
+  { rewrite <- (map_length (@r_version hash)), Hmap, map_length, firstn_length. lia. }
+  destruct revs as [|r0 tl0] eqn:Er; [simpl in Hlen; lia|]. rewrite <- Er in *.
+  assert (revs <> []) as Hne by (rewrite Er; discriminate).
+  destruct (nth_error_some_lt all (m - 1) ltac:(lia)) as [fm Hfm].
+  pose proof Hfm as Hfm'. apply nth_error_split in Hfm' as (A & B & Hall & HA).
+  assert (firstn m all = A ++ [fm]) as Hfirst.
+  { rewrite Hall. replace m with (S (length A)) by lia. apply firstn_app_exact_S. }
+  pose proof (revs_snoc hash revs r0 Hne) as Hsn. set (lst := last revs r0) in *. set (rl := removelast revs) in *.
+  assert (map (@r_version hash) rl = map f_version A /\ r_version lst = f_version fm) as [Hmrl Hlv].
+  { rewrite Hsn, Hfirst, !map_app in Hmap. simpl in Hmap. apply app_inj_tail in Hmap. exact Hmap. }
+  assert (length rl = m - 1) as Hrl.
+  { rewrite Hsn, app_length in Hlen. simpl in Hlen. lia. }
+  assert (nth_error revs (m - 1) = Some lst) as Hnth.
+  { rewrite Hsn. rewrite nth_error_app2 by lia. rewrite Hrl, Nat.sub_diag. reflexivity. }
+  assert (sorted_revs revs) as Hsr.
+  { apply (proj2 (StronglySorted_map (fun a b => bytes_ltb a b = true) (@r_version hash) revs)).
+    rewrite Hmap. apply (proj1 (StronglySorted_map (fun a b => bytes_ltb a b = true) f_version (firstn m all))).
+    rewrite <- (firstn_skipn m all) in Hsa. apply StronglySorted_app_inv in Hsa as [H1 _]. exact H1. }
+  (* the first revision is the one of the first file of [all] *)
+  assert (exists f0, In f0 all /\ r_version r0 = f_version f0) as (f0 & Hf0 & Hv0).
+  { destruct all as [|f0 l]; [simpl in Hm; lia|]. exists f0. split; [left; reflexivity|].
+    rewrite Er in Hmap. replace m with (S (m - 1)) in Hmap by lia. simpl in Hmap. congruence. }
+  rewrite (pending_refines hash c (pre ++ all) revs Hsf Hsr). unfold pending_spec. rewrite Er. rewrite <- Er.
+  fold lst. unfold hist_spec. cbv zeta. rewrite Hlv.
+  assert (sorted_files ((pre ++ A) ++ fm :: B)) as Hsf2 by (rewrite <- app_assoc, <- Hall; exact Hsf).
+  destruct (sorted_files_mid (pre ++ A) fm B Hsf2) as [Hlt Hgt].
+  assert (forall x, In x B -> f_ckpt x = false) as HBn.
+  { intros x Hx. apply Htail. rewrite Hall. destruct A; simpl; [exact Hx|]. apply in_or_app. right. right. exact Hx. }
+  assert (ooo_files (r_version r0) (f_version fm) revs (pre ++ all) = []) as ->.
+  { unfold ooo_files. apply filter_false. intros x Hx.
+    destruct (bytes_ltb (f_version x) (f_version fm)) eqn:Elt; [|rewrite andb_false_r; reflexivity].
+    apply in_app_or in Hx as [Hx|Hx].
+    - rewrite Hv0. assert (bytes_leb (f_version f0) (f_version x) = false) as ->.
+      { apply bytes_leb_false_ltb. apply Hpre_lt; assumption. }
+      rewrite andb_false_r. reflexivity.
+    - assert (In x A) as HxA.
+      { rewrite Hall in Hx. apply in_app_or in Hx as [Hx|[<-|Hx]]; [exact Hx| |].
+        - rewrite bytes_ltb_irrefl in Elt. discriminate.
+        - rewrite (bytes_ltb_asym _ _ (Hgt x Hx)) in Elt. discriminate. }
+      assert (has_rev revs (f_version x) = true) as ->; [|rewrite andb_false_r; reflexivity].
+      apply has_rev_In. rewrite Hsn, map_app, Hmrl. apply in_or_app. left. apply in_map. exact HxA. }
+  assert (newer (f_version fm) (pre ++ all) = B) as ->.
+  { unfold newer. rewrite Hall. replace (pre ++ A ++ fm :: B) with (((pre ++ A) ++ [fm]) ++ B)
+      by (rewrite <- !app_assoc; reflexivity).
+    apply filter_split.
+    - intros x Hx. apply in_app_or in Hx as [Hx|[<-|[]]].
+      + rewrite (bytes_ltb_asym _ _ (Hlt x Hx)). apply andb_false_r.
+      + rewrite bytes_ltb_irrefl. apply andb_false_r.
+    - intros x Hx. rewrite (HBn x Hx), (Hgt x Hx). reflexivity. }
+  rewrite !by_order_nil.
+  assert (pre ++ all = (pre ++ A) ++ fm :: B) as Hfull2 by (rewrite Hall, <- app_assoc; reflexivity).
+  destruct p.
+  - assert (m - 1 = k) as Hk by (unfold m; lia). rewrite Hk in *.
+    assert (r_applied lst =? r_total lst = false) as ->.
+    { apply Nat.eqb_neq. apply (Hpart eq_refl lst Hnth). }
+    rewrite Hfull2 at 1. rewrite (find_sorted (pre ++ A) fm B Hsf2).
+    assert (skipn k all = fm :: B) as ->.
+    { rewrite Hall, <- HA. apply skipn_app_exact. }
+    destruct (f_ckpt fm); [reflexivity|]. rewrite by_order_nil. reflexivity.
+  - assert (m = k) as Hk by (unfold m; lia). rewrite Hk in *.
+    assert (r_applied lst =? r_total lst = true) as ->.
+    { apply Nat.eqb_eq. apply (Hcomp (k - 1) lst); [lia|exact Hnth]. }
+    rewrite Hall. replace k with (S (length A)) by lia. rewrite skipn_app_exact_S. reflexivity.
+Qed.
+
+End PendingFrom.
+
 Section Resume.
 Variable hash : Type.
 Variable hash_eqb : hash -> hash -> bool.
@@ -256,9 +369,13 @@ Definition final_tbl (outs : list (run_outcome * list rev * list event)) (t : li
 
 (** ** one directory *)
 Section Dir.
+(** [all]: the files the executor has to run, in order = the directory from its
+    last checkpoint file on ([skipped] = the files before it, never run). *)
 Variable all : list file.
 Hypothesis Hsorted : sorted_files all.
-Hypothesis Hnock : forall f, In f all -> f_ckpt f = false.
+Variable skipped : list file.
+Hypothesis Hfull : sorted_files (skipped ++ all).
+Hypothesis Hfresh : from_last_ckpt (skipped ++ all) = all.
 
 Definition pos (k a : nat) : nat := length (plan (firstn k all)) + a.
 Definition upto (n : nat) : list (bytes * bytes) := firstn n (plan all).
@@ -431,6 +548,46 @@ Proof.
   destruct Htb as [[Ht Ea]|(r1 & Ht & Hc1 & Ht1)].
   - exists a1, has, e1. rewrite Ht. split; [rewrite Ea; exact HI|]. repeat split; auto.
   - exists a1, true, e1. rewrite Ht. split; [eapply Inv_put; eauto|]. repeat split; auto.
+Qed.
+
+(** One whole [Execute] of file [k]: where it leaves table and journal; the
+    statement that ran without being claimed is exactly a failed bookkeeping
+    write directly after it ([wf]). *)
+Lemma file_whole t k a has f fs o t1 fs1 es :
+  Inv t k a has -> normal k a has -> nth_error all k = Some f ->
+  execute f t fs = (o, t1, fs1, es) ->
+  exists a1 has1 e1,
+    Inv t1 k a1 has1 /\
+    upto (pos k a) ++ journal es = upto (pos k a1 + b2n e1) /\
+    a <= a1 /\ a1 + b2n e1 <= len f /\ b2n e1 = wf es.
+Proof.
+  intros HI Hnorm Hn EX.
+  destruct (Inv_pre t k a has f HI Hnorm Hn) as (r0 & Hpre & Htot & Ha).
+  pose proof (pre_applied hash HS f t r0 Hpre) as Hle. rewrite Ha in Hle.
+  pose proof (execute_tbl hash hash_eqb HS f t fs o t1 fs1 es EX) as Ht1.
+  destruct (execute_shape hash hash_eqb HS hash_eqb_spec f t r0 Hpre fs o t1 fs1 es EX) as [Hsh _].
+  pose proof (shape_good f t r0 o t1 es Hpre Htot Hsh) as Hgood. rewrite Ha in Hgood.
+  destruct (execute_spec hash hash_eqb HS hash_eqb_spec f t r0 fs o t1 fs1 es Hpre Htot EX)
+    as (c & a' & S1 & S2 & S3 & S4 & Spos & Swf & Stbl & _).
+  rewrite Ha in *.
+  destruct (file_prefix t k a has f es [] HI Hnorm Hn Hle ltac:(rewrite app_nil_r; exact Hgood))
+    as (aw & hasw & ew & HIw & Hupw & Hlew & Hbw & Hlenw).
+  rewrite <- Ht1 in HIw.
+  assert (aw = a') as Eaw.
+  { destruct Stbl as [(-> & Hnone & _ & _ & -> & _)|(r' & -> & Hc' & _)].
+    - destruct hasw.
+      + destruct HIw as (_ & _ & _ & (g & r & Hg & Hgr & _)). rewrite Hn in Hg. inversion Hg; subst g.
+        rewrite Hnone in Hgr. discriminate.
+      + destruct HIw as (_ & _ & _ & ->). reflexivity.
+    - destruct hasw.
+      + destruct HIw as (_ & _ & _ & (g & r & Hg & Hgr & (_ & Hap & _) & _)). rewrite Hn in Hg. inversion Hg; subst g.
+        destruct Hc' as (Hv' & Hap' & _). rewrite <- Hv', tbl_get_put_same in Hgr. inversion Hgr; subst r. lia.
+      + exfalso. pose proof (Inv_notin _ k aw false k f HIw Hn ltac:(simpl; lia)) as Hnone.
+        destruct Hc' as (Hv' & _). rewrite <- Hv', tbl_get_put_same in Hnone. discriminate. }
+  exists aw, hasw, ew. split; [exact HIw|]. split; [exact Hupw|]. split; [exact Hlew|]. split; [exact Hbw|].
+  assert (c = aw + b2n ew - a) as Ec.
+  { rewrite <- Hlenw, journal_positions_length, Spos, map_length, seq_length. reflexivity. }
+  rewrite Swf. lia.
 Qed.
 
 (** [Executor.exec] over pending files, from a state that satisfies the invariant. *)
@@ -620,25 +777,28 @@ Proof.
   apply sorted_revs_NoDup. eapply Inv_sorted; exact HI.
 Qed.
 
+Lemma Htail : forall f, In f (tl all) -> f_ckpt f = false.
+Proof. rewrite <- Hfresh. apply from_last_ckpt_tail. Qed.
+
 Lemma pending_inv c t k a has :
   cfg_ok c -> Inv t k a has -> normal k a has ->
-  pending c all (read_revisions hash t) = (finish (skipn k all), None).
+  pending c (skipped ++ all) (read_revisions hash t) = (finish (skipn k all), None).
 Proof.
   intros [Hb Hd] HI Hnorm. rewrite (read_revisions_sorted_id hash t (Inv_sorted t k a has HI)).
   pose proof HI as (Hm & Hmap & Hrows & Hk).
   destruct (Nat.eq_dec (k + b2n has) 0) as [E0|Hpos].
   - assert (k = 0) as -> by lia. rewrite E0 in Hmap. simpl in Hmap. apply map_eq_nil in Hmap. subst t.
-    rewrite (first_run_no_checkpoint hash c all Hd Hb Hnock). reflexivity.
-  - rewrite (pending_linear_state hash c all t k has Hsorted Hnock).
-    + destruct (skipn k all); reflexivity.
-    + split; [exact Hm|]. split; [unfold b2n in Hpos; lia|]. split; [exact Hmap|]. split.
-      * intros i r Hi Hr.
-        destruct (nth_error_some_lt all i ltac:(lia)) as [f Hf].
-        destruct (Hrows i f Hi Hf) as (r' & Hg & (_ & Hap & _) & Ht).
-        rewrite (Inv_row t k a has i r f HI Hr Hf) in Hg. inversion Hg; subst r'. lia.
-      * intros -> r Hr. destruct Hk as (f & r' & Hf & Hg & (_ & Hap & _) & Ht).
-        rewrite (Inv_row t k a true k r f HI Hr Hf) in Hg. inversion Hg; subst r'.
-        pose proof (Hnorm eq_refl f Hf). lia.
+    rewrite (first_refines hash c (skipped ++ all) Hfull). unfold first_spec.
+    rewrite Hb, Hd, Hfresh. reflexivity.
+  - apply (pending_from_state hash c skipped all t k has Hfull Htail).
+    split; [exact Hm|]. split; [unfold b2n in Hpos; lia|]. split; [exact Hmap|]. split.
+    + intros i r Hi Hr.
+      destruct (nth_error_some_lt all i ltac:(lia)) as [f Hf].
+      destruct (Hrows i f Hi Hf) as (r' & Hg & (_ & Hap & _) & Ht).
+      rewrite (Inv_row t k a has i r f HI Hr Hf) in Hg. inversion Hg; subst r'. lia.
+    + intros -> r Hr. destruct Hk as (f & r' & Hf & Hg & (_ & Hap & _) & Ht).
+      rewrite (Inv_row t k a true k r f HI Hr Hf) in Hg. inversion Hg; subst r'.
+      pose proof (Hnorm eq_refl f Hf). lia.
 Qed.
 
 (** ** the journal across event prefixes and runs *)
@@ -703,7 +863,7 @@ Qed.
 
 Lemma run_ginv c n t fs ro t' fs' es J D :
   cfg_ok c -> GInv t J D ->
-  execute_n c n all t fs = (ro, t', fs', es) ->
+  execute_n c n (skipped ++ all) t fs = (ro, t', fs', es) ->
   GInv t' (J ++ journal es) (D + wf es) /\
   t' = tbl_of_events es t /\
   (forall es1 es2, es = es1 ++ es2 -> GInv (tbl_of_events es1 t) (J ++ journal es1) (D + 1)) /\
@@ -715,7 +875,7 @@ Proof.
   pose proof (pending_inv c t k a has Hc HI Hnorm) as Hpend.
   destruct (skipn k all) as [|f l] eqn:Esk.
   - (* nothing pending *)
-    rewrite (execute_n_error hash hash_eqb HS c n all t fs _ Hpend) in Hex by (intros p; discriminate).
+    rewrite (execute_n_error hash hash_eqb HS c n (skipped ++ all) t fs _ Hpend) in Hex by (intros p; discriminate).
     inversion Hex; subst ro t' fs' es. simpl. rewrite app_nil_r, !Nat.add_0_r.
     assert (GInv t J D) as HG by (exists k, a, has, e, d; auto).
     split; [exact HG|]. split; [reflexivity|]. split.
@@ -731,7 +891,7 @@ Proof.
       split; [exact HI|]. exists d. split; [exact Hst|]. simpl in HD. lia.
   - (* run the chosen pending files *)
     change (finish (f :: l)) with (PFiles (f :: l)) in Hpend.
-    rewrite (execute_n_first_n hash hash_eqb HS c n all t fs _ Hpend) in Hex.
+    rewrite (execute_n_first_n hash hash_eqb HS c n (skipped ++ all) t fs _ Hpend) in Hex.
     set (chosen := if 0 <? n then firstn n (f :: l) else f :: l) in *.
     destruct (exec_files chosen t fs) as [[[o t2] fs2] es'] eqn:EX.
     inversion Hex; subst ro t' fs' es. clear Hex.
@@ -801,7 +961,7 @@ Lemma Inv_claimed t k a has : Inv t k a has -> claimed_plan t = upto (pos k a).
 Proof.
   intros HI. pose proof HI as (Hm & Hmap & Hrows & Hk).
   set (g := fun f => map (pair (f_version f)) (firstn (stored_applied hash t (f_version f)) (f_stmts f))).
-  assert (forall l, (forall f, In f l -> stored_applied hash t (f_version f) = len f) -> flat_map g l = plan l) as Hfull.
+  assert (forall l, (forall f, In f l -> stored_applied hash t (f_version f) = len f) -> flat_map g l = plan l) as Hwhole.
   { induction l as [|f l IH]; intros H; [reflexivity|]. simpl. rewrite IH by (intros; apply H; right; auto).
     unfold g. rewrite (H f (or_introl eq_refl)), firstn_all. reflexivity. }
   assert (forall l, (forall f, In f l -> stored_applied hash t (f_version f) = 0) -> flat_map g l = []) as Hnone.
@@ -811,7 +971,7 @@ Proof.
   { intros m f Hle Hin. apply In_nth_error in Hin as [j Hj]. rewrite nth_error_skipn_add in Hj.
     unfold stored_applied. rewrite (Inv_notin t k a has (m + j) f HI Hj) by lia. reflexivity. }
   unfold claimed_plan. fold g. rewrite <- (firstn_skipn k all) at 1. rewrite flat_map_app.
-  rewrite Hfull.
+  rewrite Hwhole.
   2:{ intros f Hin. apply In_nth_error in Hin as [i Hi].
       assert (i < k) as Hlt.
       { assert (i < length (firstn k all)) as L by (apply nth_error_Some; congruence).
@@ -852,7 +1012,7 @@ Proof.
 Qed.
 
 (** ** sequences of runs *)
-Definition run_ok (r : run) : Prop := run_dir r = all /\ cfg_ok (run_cfg r).
+Definition run_ok (r : run) : Prop := run_dir r = skipped ++ all /\ cfg_ok (run_cfg r).
 
 Notation run_all := (run_all hash hash_eqb HS).
 
@@ -866,7 +1026,7 @@ Proof.
   - simpl. rewrite app_nil_r, Nat.add_0_r. split; [exact HG|reflexivity].
   - inversion Hok as [|? ? [Hdir Hcfg] Hok']; subst.
     cbn [RunModel.run_all]. rewrite Hdir.
-    destruct (execute_n (run_cfg r) (run_n r) all t (run_faults r)) as [[[ro t'] fs'] es] eqn:EX.
+    destruct (execute_n (run_cfg r) (run_n r) (skipped ++ all) t (run_faults r)) as [[[ro t'] fs'] es] eqn:EX.
     destruct (run_ginv _ _ _ _ _ _ _ _ J D Hcfg HG EX) as (G1 & Ht & _ & _).
     destruct (IH t' (J ++ journal es) (D + wf es) Hok' G1) as (G2 & Ht2).
     unfold final_tbl, all_events, wf_all in *. simpl.
@@ -883,7 +1043,7 @@ Proof.
   - simpl in E. symmetry in E. apply app_eq_nil in E as [-> _]. simpl. rewrite app_nil_r. eauto.
   - inversion Hok as [|? ? [Hdir Hcfg] Hok']; subst.
     cbn [RunModel.run_all] in E. rewrite Hdir in E.
-    destruct (execute_n (run_cfg r) (run_n r) all t (run_faults r)) as [[[ro t'] fs'] es] eqn:EX.
+    destruct (execute_n (run_cfg r) (run_n r) (skipped ++ all) t (run_faults r)) as [[[ro t'] fs'] es] eqn:EX.
     destruct (run_ginv _ _ _ _ _ _ _ _ J D Hcfg HG EX) as (G1 & Ht & Gp & _).
     unfold all_events in E. simpl in E. apply app_eq_app in E as [l [[E1 E2]|[E1 E2]]].
     + exists (D + 1). apply (Gp pre l). exact E1.
@@ -894,17 +1054,17 @@ Qed.
 
 Lemma runs_done : forall rs c t J D,
   Forall run_ok rs -> cfg_ok c -> GInv t J D ->
-  let outs := run_all (rs ++ [mkRun c 0 all []]) t in
+  let outs := run_all (rs ++ [mkRun c 0 (skipped ++ all) []]) t in
   GDone (final_tbl outs t) (J ++ journal (all_events outs)) (D + wf_all outs).
 Proof.
   induction rs as [|r rs IH]; intros c t J D Hok Hc HG.
   - cbn [app RunModel.run_all run_cfg run_n run_dir run_faults].
-    destruct (execute_n c 0 all t []) as [[[ro t'] fs'] es] eqn:EX.
+    destruct (execute_n c 0 (skipped ++ all) t []) as [[[ro t'] fs'] es] eqn:EX.
     destruct (run_ginv _ _ _ _ _ _ _ _ J D Hc HG EX) as (_ & _ & _ & Gd).
     unfold final_tbl, all_events, wf_all. simpl. rewrite app_nil_r, Nat.add_0_r. apply Gd; reflexivity.
   - inversion Hok as [|? ? [Hdir Hcfg] Hok']; subst.
     cbn [app RunModel.run_all]. rewrite Hdir.
-    destruct (execute_n (run_cfg r) (run_n r) all t (run_faults r)) as [[[ro t'] fs'] es] eqn:EX.
+    destruct (execute_n (run_cfg r) (run_n r) (skipped ++ all) t (run_faults r)) as [[[ro t'] fs'] es] eqn:EX.
     destruct (run_ginv _ _ _ _ _ _ _ _ J D Hcfg HG EX) as (G1 & Ht & _ & _).
     pose proof (IH c t' (J ++ journal es) (D + wf es) Hok' Hc G1) as G2.
     unfold final_tbl, all_events, wf_all in *. simpl.
@@ -977,13 +1137,13 @@ Qed.
 
 Lemma complete_lemma rs c :
   Forall run_ok rs -> cfg_ok c ->
-  let outs := run_all (rs ++ [mkRun c 0 all []]) [] in
+  let outs := run_all (rs ++ [mkRun c 0 (skipped ++ all) []]) [] in
   let T := final_tbl outs [] in
   (exists reps, length reps = plen /\ journal (all_events outs) = expand (plan all) reps /\
                 list_sum reps <= wf_all outs) /\
   (forall f, In f all -> exists r, tbl_get T (f_version f) = Some r /\
                                    r_applied r = len f /\ r_total r = len f) /\
-  (forall c', cfg_ok c' -> pending c' all (read_revisions hash T) = (PNoPending, None)).
+  (forall c', cfg_ok c' -> pending c' (skipped ++ all) (read_revisions hash T) = (PNoPending, None)).
 Proof.
   intros Hok Hc outs T.
   destruct (runs_done rs c [] [] 0 Hok Hc GInv_nil) as (HI & d & Hst & Hd).
@@ -1000,7 +1160,7 @@ Qed.
 
 Lemma exactly_once_lemma rs c :
   Forall run_ok rs -> cfg_ok c ->
-  let outs := run_all (rs ++ [mkRun c 0 all []]) [] in
+  let outs := run_all (rs ++ [mkRun c 0 (skipped ++ all) []]) [] in
   (forall out r, In out outs -> ~ In (EWrite r false) (snd out)) ->
   journal (all_events outs) = plan all.
 Proof.
@@ -1011,6 +1171,95 @@ Proof.
 Qed.
 
 End Dir.
+
+(** ** the same statements for a whole directory [full] (checkpoint files allowed):
+    the plan is the directory from its last checkpoint file on *)
+Section Full.
+Variable full : list file.
+Hypothesis Hfs : sorted_files full.
+
+Definition run_on (r : run) : Prop := run_dir r = full /\ cfg_ok (run_cfg r).
+Notation run_all := (run_all hash hash_eqb HS).
+Local Notation all := (from_last_ckpt full).
+
+Lemma full_split :
+  exists sk, full = sk ++ all /\ sorted_files all /\ sorted_files (sk ++ all) /\ from_last_ckpt (sk ++ all) = all.
+Proof.
+  destruct (from_last_ckpt_split full) as [sk E]. exists sk. split; [exact E|].
+  split; [|split; rewrite <- E; [exact Hfs|reflexivity]].
+  pose proof Hfs as H. rewrite E in H. apply StronglySorted_app_inv in H as (_ & H & _). exact H.
+Qed.
+
+Lemma run_on_ok sk rs : full = sk ++ all -> Forall run_on rs -> Forall (run_ok all sk) rs.
+Proof.
+  intros E H. induction H as [|r rs [Hd Hc] _ IH]; constructor; [|exact IH].
+  split; [rewrite Hd; exact E|exact Hc].
+Qed.
+
+Lemma resume_full rs :
+  Forall run_on rs ->
+  let outs := run_all rs [] in
+  exists P E reps,
+    P <= E /\ E <= P + 1 /\ E <= length (plan all) /\ length reps = E /\
+    journal (all_events outs) = expand (firstn E (plan all)) reps /\
+    list_sum reps <= wf_all outs /\
+    claimed_plan all (final_tbl outs []) = firstn P (plan all).
+Proof.
+  destruct full_split as (sk & E & Hs & Hf & Hfr). intros Hok.
+  exact (resume_lemma all Hs sk Hf Hfr rs (run_on_ok sk rs E Hok)).
+Qed.
+
+Lemma never_overclaims_full rs :
+  Forall run_on rs ->
+  forall pre post, all_events (run_all rs []) = pre ++ post ->
+  exists P E reps,
+    P <= E /\ E <= P + 1 /\ E <= length (plan all) /\ length reps = E /\
+    journal pre = expand (firstn E (plan all)) reps /\
+    claimed_plan all (tbl_of_events pre []) = firstn P (plan all) /\
+    (forall r, In r (tbl_of_events pre []) ->
+       exists f, In f all /\ claim_ok f r (r_applied r) /\ r_total r = length (f_stmts f)).
+Proof.
+  destruct full_split as (sk & E & Hs & Hf & Hfr). intros Hok.
+  exact (never_overclaims_runs all Hs sk Hf Hfr rs (run_on_ok sk rs E Hok)).
+Qed.
+
+Lemma once_prefix_full rs :
+  Forall run_on rs ->
+  let outs := run_all rs [] in
+  (forall out r, In out outs -> ~ In (EWrite r false) (snd out)) ->
+  exists E, E <= length (plan all) /\ journal (all_events outs) = firstn E (plan all).
+Proof.
+  destruct full_split as (sk & E & Hs & Hf & Hfr). intros Hok.
+  exact (once_prefix_lemma all Hs sk Hf Hfr rs (run_on_ok sk rs E Hok)).
+Qed.
+
+Lemma complete_full rs c :
+  Forall run_on rs -> cfg_ok c ->
+  let outs := run_all (rs ++ [mkRun c 0 full []]) [] in
+  let T := final_tbl outs [] in
+  (exists reps, length reps = length (plan all) /\ journal (all_events outs) = expand (plan all) reps /\
+                list_sum reps <= wf_all outs) /\
+  (forall f, In f all -> exists r, tbl_get T (f_version f) = Some r /\
+                                   r_applied r = length (f_stmts f) /\ r_total r = length (f_stmts f)) /\
+  (forall c', cfg_ok c' -> pending c' full (read_revisions hash T) = (PNoPending, None)).
+Proof.
+  destruct full_split as (sk & E & Hs & Hf & Hfr). intros Hok Hc.
+  pose proof (complete_lemma all Hs sk Hf Hfr rs c (run_on_ok sk rs E Hok) Hc) as H.
+  rewrite <- E in H. exact H.
+Qed.
+
+Lemma exactly_once_full rs c :
+  Forall run_on rs -> cfg_ok c ->
+  let outs := run_all (rs ++ [mkRun c 0 full []]) [] in
+  (forall out r, In out outs -> ~ In (EWrite r false) (snd out)) ->
+  journal (all_events outs) = plan all.
+Proof.
+  destruct full_split as (sk & E & Hs & Hf & Hfr). intros Hok Hc.
+  pose proof (exactly_once_lemma all Hs sk Hf Hfr rs c (run_on_ok sk rs E Hok) Hc) as H.
+  rewrite <- E in H. exact H.
+Qed.
+
+End Full.
 
 (** ** one run stops at the first failing call (any configuration, any table) *)
 Lemma execute_n_stops c n all (t : list rev) fs ro t' fs' es :
